@@ -43,13 +43,19 @@ RULE = ("cases come from one PRNG seeded by VERIF_SEED plus fixed catalogues: en
         "boundaries / zero-length reads; the Trezor vectors inline in buidl/test/test_hd.py. A case is non-trivial when "
         "its input is not empty; distinct = distinct request lines / predicate inputs")
 CLAUSES = {
-    "entropy -> words (11-bit groups of entropy ‖ checksum)": "TBD",
-    "round trip mnemonic_to_bytes ∘ bytes_to_mnemonic": "TBD",
-    "acceptance iff length/words/checksum": "TBD",
-    "four-letter prefix lookup well-defined (table facts)": "TBD",
-    "vendored PBKDF2.read = RFC 2898": "TBD",
-    "seed = PBKDF2-HMAC-SHA512(normalised words, 'mnemonic'+passphrase, 2048, 64)": "TBD",
-    "BIP32 master derivation from the seed": "TBD",
+    "entropy -> words (11-bit groups of entropy ‖ checksum)": "proved relative to sha256 (words_are_11bit_groups)",
+    "round trip mnemonic_to_bytes ∘ bytes_to_mnemonic": "proved relative to sha256 (roundtrip; string level incl. join/split)",
+    "acceptance iff length/words/checksum": "proved relative to sha256 (accept_iff, lookupAll_spec, wrong_length_rejected, "
+                                            "unknown_word_rejected, bytesToMnemonic_rejects_size)",
+    "four-letter prefix lookup well-defined (table facts)": "proved (bip39_table_facts, bip39_sorted, lookup_well_defined, word_lookup; "
+                                                            "kernel check Buidl.Mnemonic.bip39_check over the generated 2048-word table)",
+    "vendored PBKDF2.read = RFC 2898": "proved for every PRF of fixed non-zero output length, salt, iteration count >= 1, length, incl. "
+                                       "the 'derived key too long' refusal and buffering across reads (pbkdf2_vendored_eq_rfc2898, "
+                                       "pbkdf2_reads, pbkdf2_zero_iterations)",
+    "seed = PBKDF2-HMAC-SHA512(normalised words, 'mnemonic'+passphrase, 2048, 64)": "proved relative to the PRF (from_mnemonic_seed, "
+                                                                                    "from_mnemonic_rejects, kdf_parameters)",
+    "BIP32 master derivation from the seed": "hand-off proved (from_mnemonic_handoff: from_seed is applied to exactly that seed); the "
+                                             "derivation itself is property C08; correspondence: ops master / predicate from_mnemonic",
 }
 TRUSTED = ["sha256 and the PRF (HMAC) are parameters of every theorem; the driver instantiates them with "
            "Buidl.Model.Hash.SHA256 / SHA512 / SHA1 / HMAC (checked against hashlib by harness/hash_selftest.py)",
@@ -325,7 +331,41 @@ def p_trezor(c):
     return got == want, got, want
 
 
-PREDICATES = {"roundtrip": p_roundtrip, "words_layout": p_words, "acceptance": p_accept, "pbkdf2_rfc2898": p_pbkdf2,
+def p_wordlist(c):
+    """WordList.__init__: `words` is the file's word sequence, `lookup` maps every word and the four-letter prefix of
+    every longer word to its index; an unexpected word count is refused"""
+    import buidl.mnemonic as M
+    words, index, prefix = _table(c["list"])
+    if c["n"] != len(words):
+        try:
+            M.WordList(c["list"] + "_words.txt", c["n"])
+        except Exception:
+            return True, REJECT, REJECT
+        return False, "constructed", REJECT
+    wl = M.WordList(c["list"] + "_words.txt", c["n"])
+    want_lookup = dict(index)
+    for pre, idx in prefix.items():
+        if len(idx) == 1 and pre not in index:
+            want_lookup[pre] = idx[0]
+    ambiguous = sorted(pre for pre, idx in prefix.items() if len(idx) != 1 or pre in index)
+    got = [list(wl.words) == words, dict(wl.lookup) == want_lookup, ambiguous]
+    return got == [True, True, []], got, [True, True, []]
+
+
+# sha256 of "\n".join(words) + "\n": the BIP39 value is that of bip-0039/english.txt as published with the BIP (an external
+# anchor: the property says "as defined by BIP39", and the list is part of the BIP)
+WORDLIST_SHA256 = {"bip39": "2f5eed53a4727b4bf8880d8f3f199efc90e58503646d9ff8eff3a2ed3b24dbda"}
+
+
+def p_fingerprint(c):
+    """the word file is the canonical list (order included): a swapped, altered or missing word changes what every
+    entropy touching it encodes to"""
+    words = _table(c["list"])[0]
+    got = hashlib.sha256(("\n".join(words) + "\n").encode()).hexdigest()
+    return got == WORDLIST_SHA256[c["list"]], got, WORDLIST_SHA256[c["list"]]
+
+
+PREDICATES = {"wordlist_fingerprint": p_fingerprint, "wordlist_tables": p_wordlist, "roundtrip": p_roundtrip, "words_layout": p_words, "acceptance": p_accept, "pbkdf2_rfc2898": p_pbkdf2,
               "from_mnemonic": p_from_mnemonic, "prefix_same": p_prefix_same, "trezor_vector": p_trezor}
 
 
@@ -548,6 +588,9 @@ def run(ctx):
         add("split", f"split {xs(v)}")
 
     # ---- 4. word lists
+    for name, n in (("bip39", 2048), ("slip39", 1024), ("bip39", 2047), ("bip39", 2049), ("slip39", 2048), ("slip39", 1023)):
+        preds.append(("wordlist_tables", {"list": name, "n": n}))
+    preds.append(("wordlist_fingerprint", {"list": "bip39"}))
     for name, words, index in (("bip39", W, WI), ("slip39", SW, SWI)):
         other_words = SW if name == "bip39" else W
         for w in words:
